@@ -83,14 +83,16 @@ class ECDF(sc.core.stairs.Stairs):
         )
 
         # inspired by seaborn.histplot
-        if stat != "probability":
+        if stat == "density":
+            # the normalisation cancels the total length, so work on the plain shares
+            # (a Timedelta-valued total length does not survive np.dot with float widths)
+            widths = bins.map(lambda i: i.right - i.left)
+            values = values / np.dot(values, widths)
+        elif stat != "probability":
             values = values * self._denormalize_probability_factor
-            if stat in ("frequency", "density"):
+            if stat == "frequency":
                 widths = bins.map(lambda i: i.right - i.left)
-                if stat == "frequency":
-                    values = values / widths
-                elif stat == "density":
-                    values = values / np.dot(values, widths)
+                values = values / widths
 
         return pd.Series(
             data=values,
